@@ -22,19 +22,34 @@ pub struct Graph {
 
 impl Graph {
     fn in_d(&self, i: usize) -> bool {
-        self.layout == 1 && i % 2 == 1
+        (self.layout == 1 && i % 2 == 1) || (self.layout == 3 && i % 4 == 3)
+    }
+    fn dir(&self) -> &'static str {
+        if self.layout == 3 {
+            "d é/"
+        } else {
+            "d/"
+        }
     }
     fn file(&self, i: usize) -> String {
-        if self.layout == 1 {
-            format!("{}m{}.oal", if i % 2 == 1 { "d/" } else { "" }, i / 2)
-        } else {
-            format!("m{i}.oal")
+        match self.layout {
+            1 => format!("{}m{}.oal", if i % 2 == 1 { "d/" } else { "" }, i / 2),
+            // names that differ by ASCII case only
+            2 => format!("{}{}.oal", if i % 2 == 1 { "M" } else { "m" }, i / 2),
+            // names with blanks and non-ASCII characters (percent-encoded in locators)
+            3 => match i % 4 {
+                0 => format!("m{i}.oal"),
+                1 => format!("sp ace {i}.oal"),
+                2 => format!("modèle-{i}.oal"),
+                _ => format!("d é/m{i}.oal"),
+            },
+            _ => format!("m{i}.oal"),
         }
     }
     fn spelled(&self, from: usize, j: usize, variant: u8) -> String {
         let base = self.file(j).rsplit('/').next().unwrap().to_owned();
         let rel = match (self.in_d(from), self.in_d(j)) {
-            (false, true) => format!("d/{base}"),
+            (false, true) => format!("{}{base}", self.dir()),
             (true, false) => format!("../{base}"),
             _ => base,
         };
@@ -49,6 +64,11 @@ impl Graph {
         let mut files = Vec::new();
         for i in 0..self.n {
             let mut t = String::new();
+            // modules of different lengths with multi-byte text in front: a position of one module is rarely a valid
+            // position of another
+            if (i + self.layout as usize) % 3 != 0 {
+                t.push_str(&format!("// {}\n", "é😉".repeat(1 + (i * 5) % 17)));
+            }
             // names depend on the target (and on the occurrence among equal targets), not on the line position
             let mut names: Vec<String> = Vec::new();
             for (j, _) in self.edges[i].iter() {
@@ -187,7 +207,7 @@ impl Loads {
     fn n_exh(&self) -> u64 {
         (1..=self.max_exhaustive).map(|n| 1u64 << (n * n)).sum()
     }
-    fn graph(&self, seed: u64, idx: u64) -> (Graph, &'static str) {
+    pub fn graph(&self, seed: u64, idx: u64) -> (Graph, &'static str) {
         let mut i = idx;
         for n in 1..=self.max_exhaustive {
             let block = 1u64 << (n * n);
@@ -223,7 +243,7 @@ impl Loads {
                 edges[a].push((n + rng.below(2), rng.below(3) as u8));
             }
         }
-        let layout = rng.below(2) as u8;
+        let layout = rng.below(4) as u8;
         (Graph { n, edges, layout }, "random")
     }
 }
@@ -233,6 +253,7 @@ struct RunResult {
     ok: bool,
     err_kind: String,
     err_detail: String,
+    err_span: Option<(String, usize, usize)>,
     mods: Vec<String>,
     doc: Option<Value>,
     panic: Option<String>,
@@ -251,6 +272,7 @@ fn run_graph(src: &Sources) -> RunResult {
             ok: false,
             err_kind: String::new(),
             err_detail: String::new(),
+            err_span: None,
             mods: vec![],
             doc: None,
             panic: Some(p.signature()),
@@ -267,6 +289,7 @@ fn run_graph(src: &Sources) -> RunResult {
             RunResult {
                 log,
                 ok: false,
+                err_span: info.span.as_ref().map(|s| (s.loc.clone(), s.start, s.end)),
                 err_kind: info.kind,
                 err_detail: detail,
                 mods: vec![],
@@ -289,6 +312,7 @@ fn run_graph(src: &Sources) -> RunResult {
                     ok: true,
                     err_kind: String::new(),
                     err_detail: String::new(),
+                    err_span: None,
                     mods: names,
                     doc: d,
                     panic: None,
@@ -298,6 +322,7 @@ fn run_graph(src: &Sources) -> RunResult {
                     ok: true,
                     err_kind: String::new(),
                     err_detail: String::new(),
+                    err_span: None,
                     mods: names,
                     doc: None,
                     panic: Some(p.signature()),
@@ -410,6 +435,39 @@ fn run_case(g: &Graph, family: &str, rng: &mut Rng, st: &mut Stats) -> Vec<Viola
             json!({"signature": format!("C10 {class}"), "problem": prob, "graph": g.to_json(), "log": r.log.iter().map(|e| format!("{} {}", e.op, e.loc)).collect::<Vec<_>>()}),
         ));
     }
+    // the error of a failed load, if it carries a position, points into the text of the module it names
+    if let Some((loc, a, b)) = &r.err_span {
+        let text = src.files.iter().find(|(n, _)| Sources::locator(n).url().as_str() == loc).map(|(_, t)| t.as_str());
+        let ok = match text {
+            Some(t) => a <= b && *b <= t.len() && t.is_char_boundary(*a) && t.is_char_boundary(*b),
+            None => false,
+        };
+        st.inc("located_load_errors_checked");
+        if !ok {
+            out.push(Violation::new(
+                "a load error carries a span outside the text of the module it names",
+                json!({"signature": format!("C10 error-span-outside-module:{}", r.err_kind), "span": format!("{loc}#{a}..{b}"), "graph": g.to_json()}),
+            ));
+        }
+    }
+    // one in sixteen: the same files on a real file system through oal-cli (names with blanks and non-ASCII
+    // characters are percent-encoded in locators and must be decoded again to reach the files)
+    // (absolute `file:///ws/...` spellings only exist in the in-memory workspace)
+    let absolute = g.edges.iter().any(|es| es.iter().any(|(_, v)| *v >= 3));
+    if family != "exhaustive" && !absolute && hash64(&format!("{:?}{}", g.edges, g.layout)) % 8 == 0 && r.panic.is_none() {
+        let dir = crate::drive::cli::TempDir::new("c10cli");
+        crate::drive::cli::write_sources(&dir.path, &src);
+        let c = crate::drive::cli::run_cli(&dir.path, &src.files[0].0, "out.yaml", None);
+        st.inc("cli_loads_compared");
+        let lib_ok = r.ok && r.doc.is_some();
+        if !c.timed_out && c.success() != lib_ok {
+            out.push(Violation::new(
+                "oal-cli on the real file system and the library on the same files disagree about the load",
+                json!({"signature": format!("C10 cli-disagrees:cli-{}:library-{}", if c.success() { "ok" } else { "failed" }, if lib_ok { "ok" } else { "failed" }),
+                       "stderr": crate::util::clip(&c.stderr, 400), "graph": g.to_json(), "layout": g.layout}),
+            ));
+        }
+    }
     // Invariance under permutation of use lines and re-spelling.
     let mut g2 = g.clone();
     for es in g2.edges.iter_mut() {
@@ -498,6 +556,7 @@ pub fn run(ctx: &Ctx) -> i32 {
         ok: true,
         err_kind: String::new(),
         err_detail: String::new(),
+        err_span: None,
         mods: vec![u(0), u(1)],
         doc: Some(json!({})),
         panic: None,
